@@ -24,6 +24,8 @@ def run(rep):
     rep.cov["corpus"] = info["stats"]
     common.compare_corpus(rep, info, OPS, nontrivial=nontrivial)
 
+    from vlib import probes
+    probes.run(rep, "C02")
 
 def replay(rep, path):
     import json
